@@ -314,29 +314,73 @@ theorem afterCheck_errored (c : Cfg) (st : St) :
 @[simp] theorem afterCheck_out (c : Cfg) (st : St) : (afterCheck c st).out = st.out := by
   unfold afterCheck; split <;> rfl
 
+@[simp] theorem initSt_matched (c : Cfg) : (initSt c).matched = false := by unfold initSt; split <;> rfl
+@[simp] theorem initSt_searched (c : Cfg) : (initSt c).searched = false := by unfold initSt; split <;> rfl
+@[simp] theorem initSt_brokenPipe (c : Cfg) : (initSt c).brokenPipe = false := by unfold initSt; split <;> rfl
+@[simp] theorem initSt_out (c : Cfg) : (initSt c).out = [] := by unfold initSt; split <;> rfl
+@[simp] theorem initSt_errored (c : Cfg) : (initSt c).errored = c.configErr := by
+  unfold initSt; split
+  · rename_i h; simp [h]
+  · rename_i h; simp at h; simp [h]
+
+theorem mem_initSt_diags (c : Cfg) (d : Diag) (h : d ∈ (initSt c).diags) : d = .config := by
+  unfold initSt errMessage at h
+  split at h
+  · split at h <;> simp at h
+    exact h
+  · simp at h
+
+theorem initSt_of_no_configErr (c : Cfg) (h : c.configErr = false) : initSt c = {} := by
+  simp [initSt, h]
+
+/-- What `main` makes of a driver that reaches its final flush in state `st` with `matched = m`. -/
+def conclude (c : Cfg) (st : St) (m : Bool) : Final :=
+  match c.flush with
+  | .ok => ⟨exitCode m c.quiet st.errored, st.diags, st.out⟩
+  | .pipe => ⟨0, st.diags, st.out⟩
+  | .err => ⟨2, st.diags ++ [.fatal], st.out⟩
+
+theorem conclude_ok (c : Cfg) (st : St) (m : Bool) (h : c.flush = .ok) :
+    conclude c st m = ⟨exitCode m c.quiet st.errored, st.diags, st.out⟩ := by simp [conclude, h]
+
+theorem conclude_pipe (c : Cfg) (st : St) (m : Bool) (h : c.flush = .pipe) :
+    conclude c st m = ⟨0, st.diags, st.out⟩ := by simp [conclude, h]
+
+theorem conclude_err (c : Cfg) (st : St) (m : Bool) (h : c.flush = .err) :
+    conclude c st m = ⟨2, st.diags ++ [.fatal], st.out⟩ := by simp [conclude, h]
+
+@[simp] theorem conclude_out (c : Cfg) (st : St) (m : Bool) : (conclude c st m).out = st.out := by
+  unfold conclude; split <;> rfl
+
+theorem main_finalFlush (c : Cfg) (st : St) (m : Bool) :
+    (match finalFlush c st m with
+      | (st, .ok matched) => (⟨exitCode matched c.quiet st.errored, st.diags, st.out⟩ : Final)
+      | (st, .errPipe) => ⟨exitBrokenPipe, st.diags, st.out⟩
+      | (st, .errOther) => ⟨exitFatal, st.diags ++ [.fatal], st.out⟩) = conclude c st m := by
+  unfold finalFlush conclude
+  cases c.flush <;> rfl
+
 theorem main_search_seq (c : Cfg) (ran : List Item) (hm : c.mode = .search) (hmp : c.matchesPossible = true)
     (hp : c.parallel = false) (hok : c.setupOk = true) :
     main c .ok ran =
-      if (searchLoop c ran {}).2 then ⟨0, (searchLoop c ran {}).1.diags, (searchLoop c ran {}).1.out⟩
-      else ⟨exitCode (searchLoop c ran {}).1.matched c.quiet (afterCheck c (searchLoop c ran {}).1).errored,
-            (afterCheck c (searchLoop c ran {}).1).diags, (afterCheck c (searchLoop c ran {}).1).out⟩ := by
+      if (searchLoop c ran (initSt c)).2 then ⟨0, (searchLoop c ran (initSt c)).1.diags, (searchLoop c ran (initSt c)).1.out⟩
+      else conclude c (afterCheck c (searchLoop c ran (initSt c)).1) (searchLoop c ran (initSt c)).1.matched := by
   simp only [main, run, hm, hmp, hp, search, hok]
-  cases h : searchLoop c ran {} with
+  cases h : searchLoop c ran (initSt c) with
   | mk st piped =>
     cases piped
-    · simp [afterCheck]
-      split <;> rfl
+    · cases hf : c.flush <;> simp [finalFlush, conclude, hf, afterCheck] <;> split <;> rfl
     · simp
 
 theorem main_search_par (c : Cfg) (ran : List Item) (hm : c.mode = .search) (hmp : c.matchesPossible = true)
     (hp : c.parallel = true) (hok : c.setupOk = true) :
     main c .ok ran =
-      if (parSearchLoop c ran {}).1.brokenPipe then
-        ⟨0, (parSearchLoop c ran {}).1.diags, (parSearchLoop c ran {}).1.out⟩
-      else ⟨exitCode (parSearchLoop c ran {}).1.matched c.quiet (afterCheck c (parSearchLoop c ran {}).1).errored,
-            (afterCheck c (parSearchLoop c ran {}).1).diags, (afterCheck c (parSearchLoop c ran {}).1).out⟩ := by
+      if (parSearchLoop c ran (initSt c)).1.brokenPipe then
+        ⟨0, (parSearchLoop c ran (initSt c)).1.diags, (parSearchLoop c ran (initSt c)).1.out⟩
+      else ⟨exitCode (parSearchLoop c ran (initSt c)).1.matched c.quiet (afterCheck c (parSearchLoop c ran (initSt c)).1).errored,
+            (afterCheck c (parSearchLoop c ran (initSt c)).1).diags, (afterCheck c (parSearchLoop c ran (initSt c)).1).out⟩ := by
   simp only [main, run, hm, hmp, hp, searchParallel, hok]
-  cases h : parSearchLoop c ran {} with
+  cases h : parSearchLoop c ran (initSt c) with
   | mk st q =>
     cases hb : st.brokenPipe
     · simp [afterCheck]
@@ -346,34 +390,37 @@ theorem main_search_par (c : Cfg) (ran : List Item) (hm : c.mode = .search) (hmp
 theorem main_files_seq (c : Cfg) (ran : List Item) (hm : c.mode = .files)
     (hp : c.parallel = false) (hok : c.setupOk = true) :
     main c .ok ran =
-      match (filesLoop c ran {}).2 with
-      | none => ⟨exitCode (filesLoop c ran {}).1.matched c.quiet (filesLoop c ran {}).1.errored,
-                  (filesLoop c ran {}).1.diags, (filesLoop c ran {}).1.out⟩
-      | some .pipe => ⟨0, (filesLoop c ran {}).1.diags, (filesLoop c ran {}).1.out⟩
-      | some _ => ⟨2, (filesLoop c ran {}).1.diags ++ [.fatal], (filesLoop c ran {}).1.out⟩ := by
+      match (filesLoop c ran (initSt c)).2 with
+      | none => conclude c (filesLoop c ran (initSt c)).1 (filesLoop c ran (initSt c)).1.matched
+      | some .pipe => ⟨0, (filesLoop c ran (initSt c)).1.diags, (filesLoop c ran (initSt c)).1.out⟩
+      | some _ => ⟨2, (filesLoop c ran (initSt c)).1.diags ++ [.fatal], (filesLoop c ran (initSt c)).1.out⟩ := by
   simp only [main, run, hm, hp, files, hok]
-  cases h : filesLoop c ran {} with
+  cases h : filesLoop c ran (initSt c) with
   | mk st failed =>
     cases failed with
-    | none => simp
+    | none => cases hf : c.flush <;> simp [finalFlush, conclude, hf]
     | some w => cases w <;> simp
 
 theorem main_files_par (c : Cfg) (ran : List Item) (hm : c.mode = .files)
     (hp : c.parallel = true) (hok : c.setupOk = true) :
     main c .ok ran =
-      match (printThread (filesParWalk c ran {}).2).2 with
-      | .ok => ⟨exitCode (filesParWalk c ran {}).1.matched c.quiet (filesParWalk c ran {}).1.errored,
-            (filesParWalk c ran {}).1.diags,
-            (filesParWalk c ran {}).1.out ++ (printThread (filesParWalk c ran {}).2).1⟩
-      | .pipe => ⟨0, (filesParWalk c ran {}).1.diags,
-            (filesParWalk c ran {}).1.out ++ (printThread (filesParWalk c ran {}).2).1⟩
-      | .err => ⟨2, (filesParWalk c ran {}).1.diags ++ [.fatal],
-          (filesParWalk c ran {}).1.out ++ (printThread (filesParWalk c ran {}).2).1⟩ := by
+      match (printThread (filesParWalk c ran (initSt c)).2).2 with
+      | .ok => conclude c { (filesParWalk c ran (initSt c)).1 with
+                  out := (filesParWalk c ran (initSt c)).1.out ++ (printThread (filesParWalk c ran (initSt c)).2).1 }
+                (filesParWalk c ran (initSt c)).1.matched
+      | .pipe => ⟨0, (filesParWalk c ran (initSt c)).1.diags,
+            (filesParWalk c ran (initSt c)).1.out ++ (printThread (filesParWalk c ran (initSt c)).2).1⟩
+      | .err => ⟨2, (filesParWalk c ran (initSt c)).1.diags ++ [.fatal],
+          (filesParWalk c ran (initSt c)).1.out ++ (printThread (filesParWalk c ran (initSt c)).2).1⟩ := by
   simp only [main, run, hm, hp, filesParallel, hok]
-  cases h : filesParWalk c ran {} with
+  cases h : filesParWalk c ran (initSt c) with
   | mk st sent =>
     cases h2 : printThread sent with
-    | mk o r => cases r <;> simp
+    | mk o r =>
+      cases r
+      · cases hf : c.flush <;> simp [finalFlush, conclude, hf]
+      · simp
+      · simp
 
 theorem qam_quiet (c : Cfg) (h : c.qam = true) : c.quiet = true := by
   simp [Cfg.qam] at h; exact h.2
@@ -568,6 +615,97 @@ theorem filesParWalk_diags (c : Cfg) (items : List Item) (st : St) :
         split
         · exact h
         · exact List.mem_cons_of_mem _ h
+
+/-! ### A diagnostic once printed stays printed -/
+
+theorem mem_errMessage_of_mem (c : Cfg) (st : St) (e d : Diag) (h : d ∈ st.diags) : d ∈ (errMessage c st e).diags := by
+  unfold errMessage
+  simp only
+  split
+  · exact List.mem_append_left _ h
+  · exact h
+
+theorem searchLoop_keeps (c : Cfg) (items : List Item) (st : St) (d : Diag) (h : d ∈ st.diags) :
+    d ∈ (searchLoop c items st).1.diags := by
+  induction items generalizing st with
+  | nil => exact h
+  | cons x xs ih =>
+    cases x with
+    | walkErr => simp only [searchLoop]; exact ih _ (mem_errMessage_of_mem _ _ _ _ h)
+    | skip => simp only [searchLoop]; exact ih _ h
+    | file id sr wr =>
+      cases sr with
+      | pipe => simp only [searchLoop]; exact h
+      | err => simp only [searchLoop]; exact ih _ (mem_errMessage_of_mem _ _ _ _ h)
+      | ok m =>
+        simp only [searchLoop]
+        split
+        · exact h
+        · exact ih _ h
+
+theorem parSearchStep_keeps (c : Cfg) (x : Item) (st : St) (d : Diag) (h : d ∈ st.diags) :
+    d ∈ (parSearchStep c st x).1.diags := by
+  cases x with
+  | walkErr => exact mem_errMessage_of_mem _ _ _ _ h
+  | skip => exact h
+  | file id sr wr =>
+    cases sr <;> cases wr <;> first | exact h | exact mem_errMessage_of_mem _ _ _ _ h
+
+theorem parSearchLoop_keeps (c : Cfg) (items : List Item) (st : St) (d : Diag) (h : d ∈ st.diags) :
+    d ∈ (parSearchLoop c items st).1.diags := by
+  induction items generalizing st with
+  | nil => exact h
+  | cons x xs ih => simp only [parSearchLoop]; exact ih _ (parSearchStep_keeps c x st d h)
+
+theorem filesLoop_keeps (c : Cfg) (items : List Item) (st : St) (d : Diag) (h : d ∈ st.diags) :
+    d ∈ (filesLoop c items st).1.diags := by
+  induction items generalizing st with
+  | nil => exact h
+  | cons x xs ih =>
+    cases x with
+    | walkErr => simp only [filesLoop]; exact ih _ (mem_errMessage_of_mem _ _ _ _ h)
+    | skip => simp only [filesLoop]; exact ih _ h
+    | file id sr wr =>
+      simp only [filesLoop]
+      split
+      · exact h
+      · cases wr with
+        | pipe => exact h
+        | err => exact h
+        | ok => exact ih _ h
+
+theorem filesParWalk_keeps (c : Cfg) (items : List Item) (st : St) (d : Diag) (h : d ∈ st.diags) :
+    d ∈ (filesParWalk c items st).1.diags := by
+  induction items generalizing st with
+  | nil => exact h
+  | cons x xs ih =>
+    cases x with
+    | walkErr => simp only [filesParWalk]; exact ih _ (mem_errMessage_of_mem _ _ _ _ h)
+    | skip => simp only [filesParWalk]; exact ih _ h
+    | file id sr wr => simp only [filesParWalk]; exact ih _ h
+
+theorem afterCheck_keeps (c : Cfg) (st : St) (d : Diag) (h : d ∈ st.diags) : d ∈ (afterCheck c st).diags := by
+  unfold afterCheck
+  split
+  · exact mem_errMessage_of_mem _ _ _ _ h
+  · exact h
+
+theorem mem_afterCheck (c : Cfg) (st : St) (d : Diag) (h : d ∈ (afterCheck c st).diags) :
+    d ∈ st.diags ∨ d = .nothingSearched := by
+  unfold afterCheck at h
+  split at h
+  · exact mem_errMessage _ _ _ _ h
+  · exact .inl h
+
+theorem conclude_keeps (c : Cfg) (st : St) (m : Bool) (d : Diag) (h : d ∈ st.diags) : d ∈ (conclude c st m).diags := by
+  unfold conclude
+  split
+  · exact h
+  · exact h
+  · exact List.mem_append_left _ h
+
+theorem config_in_initSt (c : Cfg) (h : c.configErr = true) (hm : c.messages = true) : Diag.config ∈ (initSt c).diags := by
+  simp [initSt, errMessage, h, hm]
 
 /-! ### Broken pipe in `--files` -/
 
